@@ -158,6 +158,26 @@ pub fn names_of(ast: &MapAst) -> Names {
         }
         push(&mut n.classes, &chars.iter().collect::<String>());
     }
+    // structured near misses: qualifiers, descriptor and path spellings, padding
+    for c in base.iter().take(4) {
+        for v in [
+            format!("x/{c}"),
+            format!("app//{c}"),
+            format!("{c}/x"),
+            c.replace('.', "/"),
+            format!("L{c};"),
+            format!(" {c}"),
+            format!("{c} "),
+            format!("{c}."),
+            format!(".{c}"),
+            format!("{c}$1"),
+            format!("[{c}"),
+        ] {
+            if v != *c {
+                push(&mut n.classes, &v);
+            }
+        }
+    }
     push(&mut n.classes, "unknown.Klass");
     push(&mut n.classes, "");
     push(&mut n.methods, "unknownMethod");
